@@ -540,6 +540,50 @@ def comp_element(elt: ast.AST, generators) -> ast.AST:
     return substitute(elt, mapping) if mapping else elt
 
 
+def _cached_kind(v: ast.AST) -> str:
+    """What a local filled before the pass loop holds: 'arrays' (results of series lookups - `obj[name]`,
+    `obj.__dict__['_' + name]`, getattr(obj, name)), 'objects' (the models themselves: values of the submodel mapping), or
+    'unknown'."""
+    elts = []
+    gens = []
+    if isinstance(v, ast.DictComp):
+        elts, gens = [v.value], v.generators
+    elif isinstance(v, (ast.ListComp, ast.GeneratorExp, ast.SetComp)):
+        elts, gens = [v.elt], v.generators
+    elif isinstance(v, ast.Dict):
+        elts = list(v.values)
+    elif isinstance(v, (ast.List, ast.Tuple)):
+        elts = list(v.elts)
+    else:
+        elts = [v]
+    name_vars = set()
+    obj_vars = set()
+    for g in gens:
+        it = g.iter
+        if isinstance(it, ast.Attribute) and it.attr in ('check', 'names', 'endogenous', 'CHECK', 'NAMES', 'ENDOGENOUS'):
+            name_vars |= {x.id for x in ast.walk(g.target) if isinstance(x, ast.Name)}
+        if isinstance(it, ast.Call) and isinstance(it.func, ast.Attribute) and it.func.attr in ('items', 'values') and text(it.func.value) in ("self.__dict__['submodels']", 'self.submodels'):
+            tg = g.target
+            if it.func.attr == 'items' and isinstance(tg, ast.Tuple) and len(tg.elts) == 2 and isinstance(tg.elts[1], ast.Name):
+                obj_vars.add(tg.elts[1].id)
+            elif it.func.attr == 'values' and isinstance(tg, ast.Name):
+                obj_vars.add(tg.id)
+    kinds = set()
+    for e in elts:
+        lookups = [x for x in ast.walk(e) if (isinstance(x, ast.Subscript) and (dict_slot(x) is not None and is_underscore_key(dict_slot(x)[1]) is not None
+                                                                                or any(isinstance(y, ast.Name) and y.id in name_vars for y in ast.walk(x.slice))))
+                   or (isinstance(x, ast.Call) and dotted(x.func) == 'getattr')]
+        if lookups:
+            kinds.add('arrays')
+        elif (isinstance(e, ast.Name) and e.id in obj_vars) or (isinstance(e, ast.Subscript) and text(e.value) in ("self.__dict__['submodels']", 'self.submodels')):
+            kinds.add('objects')
+        else:
+            kinds.add('unknown')
+    if 'arrays' in kinds:
+        return 'arrays'
+    return 'objects' if kinds == {'objects'} else 'unknown'
+
+
 def check_convergence(R, sh: SolverShape) -> None:
     from fsa.match import abs_arg
 
@@ -572,7 +616,13 @@ def check_convergence(R, sh: SolverShape) -> None:
                     defs_ = [n_ for n_ in sh.cfg.nodes if n_.kind == 'stmt' and isinstance(n_.ast, (ast.Assign, ast.AnnAssign)) and x.id in names_bound_of(n_)]
                     cached = [n_ for n_ in defs_ if not sh.in_loop(n_) and any(isinstance(y, ast.Subscript) or isinstance(y, (ast.ListComp, ast.DictComp)) for y in ast.walk(n_.ast.value))
                               and 'self' in {z.id for z in ast.walk(n_.ast.value) if isinstance(z, ast.Name)}]
-                    if cached:
+                    kinds = {_cached_kind(n_.ast.value) for n_ in cached}
+                    if cached and kinds == {'objects'}:
+                        R.ok(sh.q, f'`{x.id}` keeps hold of model objects, not of their arrays: `{sub.name}()` still looks each series up by name on every call')
+                    elif cached and 'arrays' not in kinds:
+                        raise Unknown(f'{sh.q}: `{sub.name}()` reads through `{x.id}` (`{cached[0].label()[:60]}`), filled before the pass loop; whether it holds '
+                                      f'arrays (stale after a rebinding) or objects is not read')
+                    elif cached:
                         R.violation(sh.q, key + f':cached-arrays:{x.id}', f'`{sub.name}()` reads the check values through `{x.id}`, a local filled once before the pass loop '
                                     f'(`{cached[0].label()[:70]}`): the arrays are not looked up again, so a series rebound during the solve (e.g. `self.Y = [...]` in a hook) is '
                                     f'never seen and the test compares stale values', where=sh.where(cached[0]))
